@@ -443,3 +443,79 @@ fn probe_c06_refused_welcome_without_id_leaves_group_behind() {
     println!("F18 groups after the refused welcome: {} {:?}", gs.len(), gs.iter().map(|g| (g.name.clone(), g.state)).collect::<Vec<_>>());
     println!("F18 pending welcomes: {}", bob.get_pending_welcomes(None).unwrap().len());
 }
+
+/// F19 candidate: with the SQLite backend, a welcome whose rumor JSON is larger than the storage layer's event limit (100 KB) is
+/// refused by save_welcome only after the pending group, its relays and the "processed" marker were stored.
+#[test]
+fn probe_c06_oversized_welcome_refused_after_group_written() {
+    let alice_keys = Keys::generate();
+    let bob_keys = Keys::generate();
+    let alice = create_test_mdk();
+    let bob = MDK::new(mdk_sqlite_storage::MdkSqliteStorage::new_unencrypted(":memory:").unwrap());
+    let admins = vec![alice_keys.public_key()];
+    let bob_kp = create_key_package_event(&bob, &bob_keys);
+    let res = alice.create_group(&alice_keys.public_key(), vec![bob_kp], create_nostr_group_config_data(admins)).unwrap();
+    let mut rumor = res.welcome_rumors[0].clone();
+    // any extra tag is accepted by validate_welcome_event; pad the rumor beyond 100 KB
+    let mut tags: Vec<nostr::Tag> = rumor.tags.iter().cloned().collect();
+    tags.push(nostr::Tag::custom(nostr::TagKind::Custom("padding".into()), vec!["x".repeat(110 * 1024)]));
+    rumor.tags = nostr::Tags::from_list(tags);
+    rumor.id = None;
+    rumor.ensure_id();
+    println!("F19 groups before: {}", bob.get_groups().unwrap().len());
+    let wrapper = EventId::all_zeros();
+    let r = bob.process_welcome(&wrapper, &rumor);
+    println!("F19 process_welcome: {:?}", r.as_ref().map(|_| "ok").map_err(|e| e.to_string()));
+    let gs = bob.get_groups().unwrap();
+    println!("F19 groups after the refused welcome: {} {:?}", gs.len(), gs.iter().map(|g| (g.name.clone(), g.state)).collect::<Vec<_>>());
+    println!("F19 pending welcomes: {}", bob.get_pending_welcomes(None).unwrap().len());
+    let r2 = bob.process_welcome(&wrapper, &rumor);
+    println!("F19 retry: {:?}", r2.as_ref().map(|_| "ok").map_err(|e| e.to_string()));
+}
+
+/// F19 (memory backend): an invitation to a group that lists more relays than the receiver's storage allows (default 100) is
+/// refused by replace_group_relays after save_group stored the pending group.
+#[test]
+fn probe_c06_too_many_relays_refused_after_group_written() {
+    let alice_keys = Keys::generate();
+    let bob_keys = Keys::generate();
+    let alice = MDK::new(mdk_memory_storage::MdkMemoryStorage::with_limits(
+        mdk_memory_storage::ValidationLimits::default().with_max_relays_per_group(1000).with_max_relays_per_welcome(1000)));
+    let bob = create_test_mdk();
+    let admins = vec![alice_keys.public_key()];
+    let bob_kp = create_key_package_event(&bob, &bob_keys);
+    let mut cfg = create_nostr_group_config_data(admins);
+    cfg.relays = (0..150).map(|i| nostr::RelayUrl::parse(&format!("wss://relay{}.example.com", i)).unwrap()).collect();
+    let res = alice.create_group(&alice_keys.public_key(), vec![bob_kp], cfg).unwrap();
+    let rumor = res.welcome_rumors[0].clone();
+    let wrapper = EventId::all_zeros();
+    let r = bob.process_welcome(&wrapper, &rumor);
+    println!("F19m process_welcome: {:?}", r.as_ref().map(|_| "ok").map_err(|e| e.to_string()));
+    let gs = bob.get_groups().unwrap();
+    println!("F19m groups after the refused welcome: {} {:?}", gs.len(), gs.iter().map(|g| (g.name.clone(), g.state)).collect::<Vec<_>>());
+    println!("F19m pending welcomes: {}", bob.get_pending_welcomes(None).unwrap().len());
+    let r2 = bob.process_welcome(&wrapper, &rumor);
+    println!("F19m retry: {:?}", r2.as_ref().map(|_| "ok").map_err(|e| e.to_string()));
+}
+
+/// F19 (SQLite backend, relay list): the serialized relay list of the invitation exceeds the welcome table's 50 KB bound.
+#[test]
+fn probe_c06_relay_json_refused_after_group_written_sqlite() {
+    let alice_keys = Keys::generate();
+    let bob_keys = Keys::generate();
+    let alice = MDK::new(mdk_memory_storage::MdkMemoryStorage::with_limits(
+        mdk_memory_storage::ValidationLimits::default().with_max_relays_per_group(5000).with_max_relays_per_welcome(5000)));
+    let bob = MDK::new(mdk_sqlite_storage::MdkSqliteStorage::new_unencrypted(":memory:").unwrap());
+    let admins = vec![alice_keys.public_key()];
+    let bob_kp = create_key_package_event(&bob, &bob_keys);
+    let mut cfg = create_nostr_group_config_data(admins);
+    cfg.relays = (0..1800).map(|i| nostr::RelayUrl::parse(&format!("wss://relay-number-{}.example.com", i)).unwrap()).collect();
+    let res = alice.create_group(&alice_keys.public_key(), vec![bob_kp], cfg).unwrap();
+    let rumor = res.welcome_rumors[0].clone();
+    let wrapper = EventId::all_zeros();
+    let r = bob.process_welcome(&wrapper, &rumor);
+    println!("F19r process_welcome: {:?}", r.as_ref().map(|_| "ok").map_err(|e| e.to_string()));
+    let gs = bob.get_groups().unwrap();
+    println!("F19r groups after the refused welcome: {} {:?}", gs.len(), gs.iter().map(|g| (g.name.clone(), g.state)).collect::<Vec<_>>());
+    println!("F19r pending welcomes: {}", bob.get_pending_welcomes(None).unwrap().len());
+}
